@@ -5,6 +5,7 @@ package service
 
 import (
 	"net"
+	"sync"
 	"time"
 )
 
@@ -161,4 +162,72 @@ func VH_C14_write_failure() {
 		verifAssert("C14.write-failure.reported", len(um.entries[0].fromClient) == n && um.entries[0].fromClient[0].status == "ERR_WRITE")
 	}
 	verifReach("C14.write-failure.done", true)
+}
+
+// the listener shuts down at the very moment one association is being torn down (its socket
+// has just been closed): all the other associations are still expired promptly
+func VH_C14_shutdown_during_teardown() {
+	for rep := 0; rep < verifRepeat(12); rep++ {
+		verifC14ShutdownDuringTeardown()
+	}
+}
+
+func verifC14ShutdownDuringTeardown() {
+	verifResetNet()
+	verifTargetBlocking = true
+	verifChanTargets = nil
+	defer func() { verifTargetBlocking = false }()
+	um := &verifUDPMetrics{}
+	nm := newNATmap(5*time.Minute, um, noopLogger())
+	key := verifKey(0, "s1")
+	client := &verifPacketConn{name: "client"}
+	const n = 3
+	socks := make([]*verifChanPC, n)
+	for i := 0; i < n; i++ {
+		pc, _ := verifListenPacket("udp", "")
+		socks[i] = pc.(*verifChanPC)
+		nm.Add(verifClientAddrs[i], client, key, socks[i], "id-0")
+	}
+	victim := verifChoice("victim", n)
+	var once sync.Once
+	socks[victim].afterClose = func() {
+		once.Do(func() { nm.Close() }) // the packet listener is shut down right now
+	}
+	verifQuiesce()
+	socks[victim].Expire() // its deadline passes: teardown starts
+	verifQuiesce()
+	for i := 0; i < n; i++ {
+		verifAssert("C14.teardown-shutdown.all-expired", socks[i].Closed() == 1)
+		verifAssert("C14.teardown-shutdown.removed-once", um.entries[i].removed == 1)
+	}
+	verifAssert("C14.teardown-shutdown.no-goroutine-left", verifBlockedIn("timedCopy") == 0)
+	verifReach("C14.teardown-shutdown.done", true)
+}
+
+// a DNS query, then a second datagram racing with the first DNS answer: whatever the order, the
+// association stays alive for its promised time after the second datagram
+func VH_C14_second_write_vs_answer() {
+	verifSched(1)
+	for rep := 0; rep < verifRepeat(1500); rep++ {
+		pc := &verifPacketConn{yieldOnDeadline: true}
+		c := &natconn{PacketConn: pc, defaultTimeout: time.Minute}
+		dns := &net.UDPAddr{IP: net.IPv4(8, 8, 8, 8), Port: 53}
+		second := net.Addr(dns)
+		if verifFlag("second-non-dns") {
+			second = &net.UDPAddr{IP: net.IPv4(93, 184, 216, 34), Port: 443}
+		}
+		c.onWrite(dns)
+		d0 := pc.deadlines[0]
+		t2 := time.Now()
+		verifAssume(t2.Add(17 * time.Second).After(d0)) // the clock has advanced since the first datagram
+		verifParStart(make(chan struct{}),
+			func() { c.onWrite(second) },
+			func() { c.onRead(dns) },
+		)
+		pc.mu.Lock()
+		last := pc.deadlines[len(pc.deadlines)-1]
+		pc.mu.Unlock()
+		verifAssert("C14.second-write.keeps-association-alive", !last.Before(t2.Add(17*time.Second)))
+	}
+	verifReach("C14.second-write.done", true)
 }
